@@ -360,7 +360,7 @@ func runProtocol(kc *kernelCtx, blocks []*Block, only string, want map[string]bo
 	if on("C07") {
 		pc.p6Panics(only)
 	}
-	if on("C12") {
+	if on("C12") || on("C16") {
 		pc.p3SpareCapacity(only)
 	}
 	if on("C09") || on("C18") {
